@@ -13,6 +13,7 @@ import (
 	"sort"
 	"strings"
 	"sync"
+	"time"
 
 	kit "verifkit"
 )
@@ -38,12 +39,23 @@ type c03Resume struct {
 	EmptyPart int   `json:"empty_part_file,omitempty"` // 1-based: this part file is empty (process died while rewriting it)
 }
 
+// c03Overlap: while this attempt is held in the middle of its pull (the CDN response of its second blob is
+// delayed by the fake CDN; with Join, the response of the first layer itself), a second model that shares the
+// attempt's first layer is pulled through the same server. Damage says what happens to that shared layer in
+// this attempt: "flip" (CDN flips a byte), "no-length" (HEAD without Content-Length, the client then fetches
+// nothing and publishes an empty file), "none".
+type c03Overlap struct {
+	Damage string `json:"damage"`
+	Join   bool   `json:"join"`
+}
+
 type c03Attempt struct {
-	Version    int        `json:"version"`
-	Faults     []Fault    `json:"faults,omitempty"`
-	Stream     bool       `json:"stream"`
-	Disconnect int        `json:"disconnect_after_line,omitempty"`
-	Resume     *c03Resume `json:"resume,omitempty"`
+	Version    int         `json:"version"`
+	Faults     []Fault     `json:"faults,omitempty"`
+	Stream     bool        `json:"stream"`
+	Disconnect int         `json:"disconnect_after_line,omitempty"`
+	Resume     *c03Resume  `json:"resume,omitempty"`
+	Overlap    *c03Overlap `json:"overlap,omitempty"`
 }
 
 type c03Case struct {
@@ -209,6 +221,18 @@ func c03Gen(r *kit.Rand, idx int, tiny []byte) c03Case {
 				at.Resume = rs
 			}
 		}
+		if r.Chance(1, 6) {
+			ov := &c03Overlap{Damage: kit.Pick(r, []string{"flip", "no-length", "none", "flip"})}
+			ov.Join = ov.Damage != "no-length" && r.Chance(1, 4)
+			at.Stream, at.Disconnect, at.Resume, at.Faults = true, 0, nil, nil
+			switch ov.Damage {
+			case "flip":
+				at.Faults = []Fault{{Kind: "cdn", Nth: 1, Act: "flip", Arg: int64(r.Intn(700))}}
+			case "no-length":
+				at.Faults = []Fault{{Kind: "head", Nth: 1, Act: "no-length"}}
+			}
+			at.Overlap = ov
+		}
 		c.Attempts = append(c.Attempts, at)
 	}
 	return c
@@ -299,6 +323,7 @@ func c03Run(bin, work string, c *c03Case, rep *kit.Report) (vs []c03Viol, inconc
 	attempts = append(attempts, last, last)
 	cleanFrom := len(c.Attempts) - 1
 	succeededClean := false
+	usedOverlap := false
 	for ai, at := range attempts {
 		if ai > cleanFrom && succeededClean {
 			break
@@ -315,7 +340,18 @@ func c03Run(bin, work string, c *c03Case, rep *kit.Report) (vs []c03Viol, inconc
 		}
 		before := readStore(srv.Models, true)
 		var res apiResult
-		if at.Disconnect > 0 {
+		if at.Overlap != nil {
+			var ovs []c03Viol
+			var inc string
+			res, ovs, inc = c03RunOverlap(srv, reg, full, ver, at.Overlap, rep)
+			if inc != "" {
+				return nil, fmt.Sprintf("attempt %d: %s", ai, inc)
+			}
+			if len(ovs) > 0 && srv.Alive() {
+				return append(vs, ovs...), ""
+			}
+			usedOverlap = true
+		} else if at.Disconnect > 0 {
 			res = srv.pullDisconnect(full, at.Disconnect)
 		} else {
 			res = srv.Pull(full, at.Stream, nil)
@@ -417,10 +453,144 @@ func c03Run(bin, work string, c *c03Case, rep *kit.Report) (vs []c03Viol, inconc
 	if r := srv.Show(full); !r.OK() {
 		vs = append(vs, c03Viol{"c03:pulled-model-cannot-be-shown", "show after the final successful pull: " + r.Err})
 	}
+	if usedOverlap {
+		// the second model of the overlapping pull: fault-free retries must succeed too, and leave it intact
+		reg.SetPlan(nil)
+		second := reg.RegHost + "/" + c03SecondName
+		ok := false
+		var lastErr string
+		for try := 0; try < 3 && !ok; try++ {
+			r := srv.Pull(second, false, nil)
+			ok, lastErr = r.OK(), r.Err
+		}
+		if !ok {
+			vs = append(vs, c03Viol{"c03:clean-retry-failed:second-model", "three fault-free pulls of the model that shared a layer with an overlapping pull failed, the last with: " + lastErr})
+		} else if raw, err := os.ReadFile(filepath.Join(srv.Models, "manifests", reg.RegHost, "verif", "second", "latest")); err != nil {
+			vs = append(vs, c03Viol{"c03:success-without-manifest", "second model: " + err.Error()})
+		} else if _, problems, parsed := checkManifest(srv.Models, raw); !parsed || len(problems) > 0 {
+			vs = append(vs, c03Viol{"c03:success-with-bad-layer:second-model-final", fmt.Sprintf("final pull of the second model reported success but: %s", strings.Join(problems, "; "))})
+		}
+	}
 	if !srv.Alive() {
 		vs = append(vs, c03Viol{"c03:server-died:after-show", tail(srv.Crashed(), 1500)})
 	}
 	return vs, ""
+}
+
+const c03SecondName = "verif/second:latest"
+
+// c03RunOverlap pulls `full` (streaming) and, while that pull is held by the fake CDN, pulls a second model
+// sharing its first layer. It returns the result of the first pull (judged by the caller like any attempt) and
+// the violations observed on the second model.
+func c03RunOverlap(srv *Srv, reg *FakeReg, full string, ver c03Version, ov *c03Overlap, rep *kit.Report) (res apiResult, vs []c03Viol, inconclusive string) {
+	shared := ver.Layers[0]
+	holdDigest := shared.Digest
+	if !ov.Join {
+		holdDigest = ""
+		for _, l := range append(append([]c03Layer{}, ver.Layers...), ver.Config) {
+			if l.Digest != shared.Digest {
+				holdDigest = l.Digest
+				break
+			}
+		}
+	}
+	cb := []byte(fmt.Sprintf(`{"model_format":"gguf","model_family":"llama","model_type":"1B","file_type":"F16","architecture":"amd64","os":"linux","second":"%s"}`, shared.Digest[7:19]))
+	cd := reg.AddBlob(cb)
+	m := manifestDoc{SchemaVersion: 2, MediaType: "application/vnd.docker.distribution.manifest.v2+json",
+		Layers: []layerRef{{MediaType: shared.Media, Digest: shared.Digest, Size: int64(shared.Size)}},
+		Config: layerRef{MediaType: ver.Config.Media, Digest: cd, Size: int64(len(cb))}}
+	mb, _ := json.Marshal(m)
+	reg.SetManifest(c03SecondName, mb)
+	second := reg.RegHost + "/" + c03SecondName
+	secondManifest := filepath.Join(srv.Models, "manifests", reg.RegHost, "verif", "second", "latest")
+
+	held, release := make(chan struct{}), make(chan struct{})
+	var once sync.Once
+	reg.mu.Lock()
+	reg.OnPath = func(kind, path string) {
+		if kind != "cdn" || holdDigest == "" || !strings.HasSuffix(path, holdDigest) {
+			return
+		}
+		first := false
+		once.Do(func() { first = true; close(held) })
+		if first {
+			select {
+			case <-release:
+			case <-time.After(60 * time.Second):
+			}
+		}
+	}
+	reg.mu.Unlock()
+	defer func() {
+		reg.mu.Lock()
+		reg.OnPath = nil
+		reg.mu.Unlock()
+	}()
+	judge := func(resB apiResult, when string) {
+		raw, err := os.ReadFile(secondManifest)
+		switch {
+		case resB.OK() && err != nil:
+			vs = append(vs, c03Viol{"c03:success-without-manifest", fmt.Sprintf("second model (%s): reported success but %v", when, err)})
+		case err == nil:
+			_, problems, parsed := checkManifest(srv.Models, raw)
+			if parsed && len(problems) > 0 {
+				sig := "c03:failed-pull-left-broken-model"
+				if resB.OK() {
+					sig = "c03:success-with-bad-layer:shared-with-overlapping-pull"
+				}
+				vs = append(vs, c03Viol{sig, fmt.Sprintf("second model, pulled while another pull of the shared layer %s (%s in that pull) was under way; %s: result ok=%v err=%q, but: %s", short(shared.Digest), ov.Damage, when, resB.OK(), resB.Err, strings.Join(problems, "; "))})
+			}
+		}
+	}
+	done := make(chan apiResult, 1)
+	go func() { done <- srv.Pull(full, true, nil) }()
+	select {
+	case <-held:
+		rep.Count("overlap_reached", 1)
+		rep.Count("overlap_"+ov.Damage+fmt.Sprintf("_join%v", ov.Join), 1)
+		var resB apiResult
+		if ov.Join {
+			// the second pull joins the download in flight and can only finish after the release
+			doneB := make(chan apiResult, 1)
+			go func() { doneB <- srv.Pull(second, false, nil) }()
+			for i := 0; i < 100; i++ {
+				seen := false
+				for _, rq := range reg.Requests() {
+					seen = seen || strings.Contains(rq.Path, "/verif/second/manifests/")
+				}
+				if seen {
+					break
+				}
+				time.Sleep(20 * time.Millisecond)
+			}
+			time.Sleep(150 * time.Millisecond)
+			close(release)
+			resB = <-doneB
+			res = <-done
+			judge(resB, "after both pulls returned")
+		} else {
+			resB = srv.Pull(second, false, nil)
+			judge(resB, "while the first pull was still held")
+			close(release)
+			res = <-done
+			if len(vs) == 0 {
+				judge(resB, "after the first pull returned")
+			}
+		}
+		if resB.OK() {
+			rep.Count("overlap_second_success", 1)
+		} else {
+			rep.Count("overlap_second_failed", 1)
+		}
+	case res = <-done:
+		// the first pull ended before it reached the held request (e.g. it rejected the damaged layer at once)
+		rep.Count("overlap_not_reached", 1)
+		close(release)
+	case <-time.After(90 * time.Second):
+		close(release)
+		return res, nil, "overlapping pull: neither the held request nor the end of the first pull was seen within 90 s"
+	}
+	return res, vs, ""
 }
 
 func sameManifest(a, b manifestDoc) bool {
@@ -499,6 +669,9 @@ func runC03() {
 				}
 				if a.Disconnect > 0 {
 					ks = append(ks, "disconnect")
+				}
+				if a.Overlap != nil {
+					ks = append(ks, fmt.Sprintf("overlap-%s-join%v", a.Overlap.Damage, a.Overlap.Join))
 				}
 				kinds = append(kinds, strings.Join(ks, "+"))
 			}
